@@ -174,11 +174,21 @@ structure Expect where
   θ : Option (List String) := none
   v : Option (List String) := none
 
+/-- probabilities / ordered values carried by a copy or kept by a `get`: equal, to rounding
+(`tolFire`; identical strings — NaN included — are equal) -/
+def sameVec (a b : List String) : Bool :=
+  a == b || (match rats? a, rats? b with
+    | some x, some y => close (tolFire x.length) x y
+    | _, _ => false)
+
 def Expect.check (e : Expect) (a : Ans) : Bool :=
   a.mem == e.mem
-    && (match e.p with | some p => a.p == p | none => true)
+    && (match e.p with | some p => sameVec a.p p | none => true)
     && (match e.θ with | some θ => a.θ == θ | none => true)
-    && (match e.v with | some v => a.v == some v | none => true)
+    && (match e.v, a.v with
+        | some v, some w => sameVec w v
+        | some _, none => false
+        | none, _ => true)
 
 structure St where
   heap : Heap := SimplexObj.Heap.empty 8
@@ -248,7 +258,8 @@ def finish (s : St) (r : Nat) (res : Heap × Option SimplexObj.HErr) (kind : Kin
       let v2 := match a.v with
         | none => judgeS m.method m.dim (allowNullOf m) inp a.p a.θ
         | some v =>
-          if staleNow then judgeS m.method m.dim (allowNullOf m) none a.p a.θ
+          -- (while stale, `inp` is the probability vector the Simplex part came from)
+          if staleNow then judgeS m.method m.dim (allowNullOf m) inp a.p a.θ
           else judgeO m.method m.dim (allowNullOf m) inp v a.p a.θ
       let (s3, v2) := match kind, v2 with
         | .userParams, "ok" =>
@@ -448,7 +459,7 @@ def step (s : St) (op : List String) (impl : Option (List String)) : St × Strin
           | "sliceassign", .error _ => (SimplexObj.applyH s.heap (.newDim rj false 1 1 false)).1
           | _, _ => s.heap
         -- the probabilities of the slice are those the ordered values came from
-        let inp := (s.input[rk]!).map (fun i => Simplex.orderedToProbs i 1)
+        let inp := if s.stale[rk]! then s.input[rk]! else (s.input[rk]!).map (fun i => Simplex.orderedToProbs i 1)
         let s0 := { s with input := s.input.set! rj inp }
         finish s0 rj (SimplexObj.applyH h0 (if base == "slicecopy" then .sliceCopy rk rj else .sliceAssign rk rj))
           .keep impl false (carry s rk false none)
@@ -460,7 +471,8 @@ def step (s : St) (op : List String) (impl : Option (List String)) : St × Strin
       match s.heap.view rk, s.heap.view rj with
       | .ok _, .ok _ =>
         let vOld := (s.last[rj]!).bind (fun t => (parseAns true t).bind (·.v))
-        finish s rj (SimplexObj.applyH s.heap (.baseAssign rk rj)) .fired impl false (carry s rk true vOld)
+        let s0 := { s with input := s.input.set! rj (s.input[rk]!) }
+        finish s0 rj (SimplexObj.applyH s.heap (.baseAssign rk rj)) .keep impl false (carry s rk true vOld)
           (makeStale := true)
       | _, _ => (s, "none", "-")
     | _, _ => (s, "bad-op", "-")
